@@ -4,6 +4,7 @@
 -/
 import PyIkev2.Proofs.Negotiate
 import PyIkev2.Proofs.HandlersChild
+import PyIkev2.Proofs.TwoEndsCreate
 
 namespace PyIkev2.Props.C11
 open PyIkev2 PyIkev2.Impl
@@ -239,5 +240,18 @@ theorem c11_concrete_initiator_suite_from_offer (now : Nat) (response : Msg) (h 
   rcases responseHandler_kids now response h hh me succ tape sad cr hcr k hk with h1 | ⟨_, _, _, _, h5⟩
   · exact Or.inl h1
   · exact Or.inr h5
+
+/-! ### both ends (two ends of the handler model, `Proofs/TwoEnds*.lean`) -/
+
+/-- after any sequence of CHILD_SA creations, rekeys and deletions started by either end (one exchange at a time, no handler raising):
+    a CHILD_SA the two ends share — same SPI pair, seen from either side — has the SAME suite at both ends -/
+theorem c11_concrete_both_ends_hold_the_same_suite (now fuel : Nat) (ops : List ChildOp) (a b a' b' : HSt)
+    (h : Agree a b) (hx : opRun now fuel (a, b) ops = some (a', b'))
+    (ca cb : Child) (ha : ca ∈ a'.me.ext.kids) (hb : cb ∈ b'.me.ext.kids) (hv : ca.view = cb.peerView) :
+    ca.proposal.transforms = cb.proposal.transforms ∧ ca.proposal.proto = cb.proposal.proto := by
+  have hag := Agree.opRun now fuel ops a b a' b' h hx
+  have := hag.paired ca ha cb hb hv
+  simp only [Child.rich, Child.peerRich, Child.view, Child.peerView, Prod.mk.injEq] at this hv
+  exact ⟨this.1, hv.2.2⟩
 
 end PyIkev2.Props.C11
